@@ -69,7 +69,9 @@ def api_systems(rng, quick):
         nat = rng.randint(2, 4)
         scale = rng.choice([3.0, 8.0, 15.0, 30.0])
         g = [rng.uniform(-scale, scale) for _ in range(3 * nat)]
-        lines = ["reset", "atoms %d" % nat, "geom 0 " + " ".join("%r" % x for x in g)]
+        # geometry 1: the same system blown up about atom 0 (the ECP), where the distance screen drops most (shell, ECP) pairs
+        far = [g[i % 3] + 6.0 * (g[i] - g[i % 3]) for i in range(3 * nat)]
+        lines = ["reset", "atoms %d" % nat, "geom 0 " + " ".join("%r" % x for x in g), "geom 1 " + " ".join("%r" % x for x in far)]
         coefs = []
         for a in range(nat):
             for _ in range(rng.randint(1, 2)):
@@ -148,8 +150,10 @@ def main(ctx, cases=None):
     # screen (pair-level screens unchanged), to be compared with what compute_integrals returns
     api = build.compile_driver(b, "corr_api.cpp")
     n_api, api_bad, n_dropped_pairs = 0, [], 0
-    for lines, scale in api_systems(rng, quick):
-        rr = subprocess.run([api], input="\n".join(lines + ["assemble 0 0"]) + "\n", stdout=subprocess.PIPE, stderr=subprocess.PIPE, text=True)
+    # every system twice: a fresh integrator at the geometry, and an integrator that was first used at the blown-up geometry (most
+    # pairs screened) and then moved to the geometry with the coordinate-update calls (a screening decision that outlives the move shows)
+    for (lines, scale), cmd in [(sysl, c) for sysl in api_systems(rng, quick) for c in ("assemble 0 0", "assemble_moved 1 0 0")]:
+        rr = subprocess.run([api], input="\n".join(lines + [cmd]) + "\n", stdout=subprocess.PIPE, stderr=subprocess.PIPE, text=True)
         if rr.returncode != 0:
             raise RuntimeError("corr_api crashed: " + rr.stderr[-300:])
         nc, blocks, kept, I = [], {}, set(), None
@@ -178,7 +182,7 @@ def main(ctx, cases=None):
         n_api += 1
         n_dropped_pairs += sum(1 for (s1, s2, u) in blocks if (s1, u) not in kept)
         if not (d <= ALLOW * scale):
-            api_bad.append({"difference": d, "allowed": ALLOW * scale, "system": lines})
+            api_bad.append({"difference": d, "allowed": ALLOW * scale, "system": lines + [cmd]})
     ctx.coverage["shell_ecp_pairs_dropped_by_the_distance_screen"] = n_dropped_pairs
     # the pair-level findings show through the integrator as well; only a difference no pair-level finding explains is new here
     ctx.coverage["integrator_systems_screened_vs_unscreened"] = n_api
